@@ -297,9 +297,15 @@ class C07(Prop):
         if rng.random() < 0.3:
             spec['src'] = 'load'          # the sources arrive through one load((descriptor, iterators)) step instead of plain iterables
         sc = {'spec': spec, 'ops': ops, 'config': config}
-        if rng.random() < 0.35 and all(t['fields'] for t in tabs):
+        if rng.random() < 0.4 and all(t['fields'] for t in tabs) and spec.get('src') != 'load':
             # 1-3 built-in steps upstream of everything (drawn against the real descriptor in execute): do they keep state between runs?
-            sc['gen'] = {'gseed': rng.randrange(2**62), 'n': rng.choice([1, 2, 3])}
+            sc['gen'] = {'gseed': rng.randrange(2**62), 'n': rng.choice([1, 2, 3, 3])}
+            if rng.random() < 0.7:
+                sc['config'] = 'same-object'
+                for op in ops:
+                    op.pop('tz', None)
+                if not any(o['op'] != 'run' for o in ops):
+                    ops.insert(1, {'op': 'delete_all'})
         return sc
 
     def execute(self, sc, ctx):
